@@ -29,6 +29,7 @@ def run(check, ctx):
     rsa_toy_rows(check, repo, thorough=ctx.tier == "thorough")
     dss_zero_component_rows(check, repo)
     rfc6979_conversion_rows(check, repo)
+    emsa_value_rows(check, repo)
     # -- strict DER decoding of the (r, s) sequence -----------------------------
     mod = repo.module("Crypto.Signature.DSS")
     fn = repo.func(mod, "DssSigScheme.verify")
@@ -730,3 +731,144 @@ def rfc6979_conversion_rows(check, repo):
              extracted=("%d of %d rows differ: " % (len(wrong), n) + "; ".join(wrong[:3])) if wrong else "%d rows over %d orders as RFC 6979 2.3.2-2.3.4" % (n, len(orders)),
              expected="bits2int / int2octets / bits2octets of RFC 6979 for every bit string and every 0 <= x < q (a hash value that is 0 or q after bits2int included)")
     check.count("rfc6979_rows", n)
+
+
+def emsa_value_rows(check, repo):
+    """The message encodings of the two RSA signature schemes as byte strings, compared with the checker's own RFC 8017
+    9.1.1 / 9.2 (hash and MGF replaced by fixed injective stand-ins, the DER writer of the repository interpreted):
+    EMSA-PSS for every residue of emBits modulo 8, several salt and hash lengths, and EMSA-PSS-VERIFY on what was
+    encoded and on every single-byte modification of it; EMSA-PKCS1-v1_5 with the DigestInfo of several OIDs, with and
+    without the NULL parameters, at the minimum length and around it."""
+    import hashlib
+    from ..absval import ABuiltin
+    from ..spec import der
+    PSSM, P15M = "Crypto.Signature.pss", "Crypto.Signature.pkcs1_15"
+    pmod, kmod = repo.module(PSSM), repo.module(P15M)
+
+    def H(data, hl):
+        return hashlib.sha512(b"toyhash" + bytes(data)).digest()[:hl]
+
+    def MGF(seed, ln):
+        out = b""
+        c = 0
+        while len(out) < ln:
+            out += hashlib.sha512(b"toymgf" + bytes(seed) + bytes([c])).digest()
+            c += 1
+        return out[:ln]
+
+    def m_mgf(i, a, kw, st, node):
+        if len(a) == 2 and isinstance(a[0], (bytes, bytearray)) and isinstance(a[1], int):
+            return MGF(a[0], a[1])
+        return ABytes(a[1] if len(a) > 1 and isinstance(a[1], int) else None)
+
+    def hash_models(hl, msg_digest):
+        def m_digest(i, base, a, kw, st, node):
+            h = st.heap.get(getattr(base, "ident", -1), {})
+            if h.get("fresh"):
+                d = h.get("data")
+                return H(d, hl) if isinstance(d, (bytes, bytearray)) else ABytes(hl)
+            return msg_digest
+
+        def m_new(i, base, a, kw, st, node):
+            o = i.new_obj(st, label="hash")
+            st.heap[o.ident].update({"fresh": True, "data": bytes(a[0]) if a and isinstance(a[0], (bytes, bytearray)) else (b"" if not a else None), "digest_size": hl})
+            return o
+
+        def m_update(i, base, a, kw, st, node):
+            h = st.heap.get(getattr(base, "ident", -1), {})
+            if isinstance(h.get("data"), (bytes, bytearray)) and a and isinstance(a[0], (bytes, bytearray)):
+                h["data"] = bytes(h["data"]) + bytes(a[0])
+            else:
+                h["data"] = None
+            return None
+        return {"digest": m_digest, "new": m_new, "update": m_update}
+    wrong = []
+    n = 0
+    f_enc, f_ver = repo.func(pmod, "_EMSA_PSS_ENCODE"), repo.func(pmod, "_EMSA_PSS_VERIFY")
+    for hl in (2, 5):
+        md = bytes((0x30 + 7 * i) & 0xFF for i in range(hl))
+        for sl in (0, 1, 4):
+            salt = bytes((0xA1 + i) & 0xFF for i in range(sl))
+            base_len = hl + sl + 2
+            for emBits in list(range(8 * base_len - 7, 8 * base_len + 10)) + [8 * (base_len + 3) - 3]:
+                emLen = (emBits + 7) // 8
+                if emLen < base_len:
+                    continue
+                # reference EMSA-PSS-ENCODE
+                hh = H(bytes(8) + md + salt, hl)
+                db = bytes(emLen - sl - hl - 2) + b"\x01" + salt
+                mask = MGF(hh, emLen - hl - 1)
+                mdb = bytearray(x ^ y for x, y in zip(db, mask))
+                mdb[0] &= 0xFF >> (8 * emLen - emBits)
+                want = bytes(mdb) + hh + b"\xbc"
+
+                def mk(it, st):
+                    o = it.new_obj(st, label="mhash")
+                    st.heap[o.ident].update({"digest_size": hl})
+                    return o
+                it = Interp(repo, max_depth=5, extra_models={"vstat.toymgf": m_mgf, "vstat.salt": lambda i, a, kw, st, node: salt[:a[0]] if a and isinstance(a[0], int) and a[0] == sl else ABytes(None)},
+                            method_models=hash_models(hl, md))
+                st = State()
+                res = it.run(pmod, f_enc, {"mhash": mk(it, st), "emBits": emBits, "randFunc": ABuiltin("vstat.salt"), "mgf": ABuiltin("vstat.toymgf"), "sLen": sl}, state=st)
+                r = res.returns()
+                got = bytes(r[0].value) if len(r) == 1 and isinstance(r[0].value, (bytes, bytearray)) and not res.raises() else None
+                n += 1
+                if got != want:
+                    wrong.append("EMSA-PSS-ENCODE(hLen=%d, sLen=%d, emBits=%d) = %s, RFC 8017 9.1.1 gives %s" % (hl, sl, emBits, got.hex() if got else res.raise_classes(), want.hex()))
+                    continue
+                variants = [("as encoded", want, True)]
+                for pos in sorted(set([0, 1, emLen - hl - 2, emLen - hl - 1, emLen - 2, emLen - 1, max(0, emLen - hl - sl - 2)])):
+                    if 0 <= pos < emLen:
+                        v = bytearray(want)
+                        v[pos] ^= 0x01
+                        variants.append(("byte %d flipped" % pos, bytes(v), False))
+                if 8 * emLen - emBits:
+                    v = bytearray(want)
+                    v[0] |= 0x80
+                    variants.append(("top bit set", bytes(v), False))
+                for what, em, ok in variants:
+                    it = Interp(repo, max_depth=5, extra_models={"vstat.toymgf": m_mgf}, method_models=hash_models(hl, md))
+                    st = State()
+                    res = it.run(pmod, f_ver, {"mhash": mk(it, st), "em": em, "emBits": emBits, "mgf": ABuiltin("vstat.toymgf"), "sLen": sl}, state=st)
+                    n += 1
+                    acc = not res.rejected() and not res.raises()
+                    ref = res.rejected() and set(res.raise_classes()) <= {"ValueError"}
+                    if (ok and not acc) or (not ok and not ref):
+                        wrong.append("EMSA-PSS-VERIFY(hLen=%d, sLen=%d, emBits=%d, EM %s): %s" % (hl, sl, emBits, what, "accepted" if acc else "refused / %s" % res.raise_classes()))
+    check.ob("K-pw", "K-pw|pss.emsa.bytes", not wrong, pmod.path, f_enc.lineno,
+             extracted=("%d of %d rows differ: " % (len(wrong), n) + "; ".join(wrong[:3])) if wrong else "%d rows: EM byte for byte as RFC 8017 9.1.1 for every emBits mod 8; VERIFY accepts it and refuses every single-byte change" % n,
+             expected="EMSA-PSS-ENCODE output = maskedDB || H || BC with the leftmost 8*emLen - emBits bits cleared; EMSA-PSS-VERIFY accepts exactly that")
+    total = n
+    # ---- EMSA-PKCS1-v1_5
+    wrong = []
+    n = 0
+    fn = repo.func(kmod, "_EMSA_PKCS1_V1_5_ENCODE")
+    for oid, dl in (("1.3.14.3.2.26", 20), ("2.16.840.1.101.3.4.2.1", 32), ("2.16.840.1.101.3.4.2.3", 64), ("2.16.840.1.101.3.4.2.8", 32), ("1.2.840.113549.2.5", 16),
+                    ("2.16.840.1.101.3.4.2.999", 28)):
+        dig = bytes((0x11 * (i + 1)) & 0xFF for i in range(dl))
+        for with_null in (True, False):
+            algo = der.seq(der.oid(oid), der.null()) if with_null else der.seq(der.oid(oid))
+            T = der.seq(algo, der.octets(dig))
+            for emLen in (len(T) + 10, len(T) + 11, len(T) + 12, 128, 257):
+                it = Interp(repo, max_depth=8, method_models={"digest": lambda i, base, a, kw, st, node, dig=dig: dig},
+                            extra_models={"Crypto.Util.asn1.DerSequence": False, "Crypto.Util.asn1.DerObjectId": False, "Crypto.Util.asn1.DerNull": False,
+                                          "Crypto.Util.asn1.DerOctetString": False, "Crypto.Util.asn1.DerObject": False, "Crypto.Util.asn1.DerInteger": False})
+                st = State()
+                mh = it.new_obj(st, label="mhash")
+                st.heap[mh.ident].update({"oid": oid, "digest_size": dl})
+                res = it.run(kmod, fn, {"msg_hash": mh, "emLen": emLen, "with_hash_parameters": with_null}, state=st)
+                n += 1
+                if emLen < len(T) + 11:
+                    if not (res.rejected() and set(res.raise_classes()) <= {"ValueError"}):
+                        wrong.append("emLen = len(T) + 10 (%d) with OID %s: not refused with ValueError (%s)" % (emLen, oid, res.raise_classes()))
+                    continue
+                r = res.returns()
+                got = bytes(r[0].value) if len(r) == 1 and isinstance(r[0].value, (bytes, bytearray)) and not res.raises() else None
+                want = b"\x00\x01" + b"\xff" * (emLen - len(T) - 3) + b"\x00" + T
+                if got != want:
+                    wrong.append("EMSA-PKCS1-v1_5(OID %s, %s NULL, emLen %d) = %s.., RFC 8017 9.2 gives %s.." % (
+                        oid, "with" if with_null else "without", emLen, got.hex()[-2 * len(T) - 8:][:60] if got else res.raise_classes(), want.hex()[-2 * len(T) - 8:][:60]))
+    check.ob("K-pw", "K-pw|p115.emsa.bytes", not wrong, kmod.path, fn.lineno,
+             extracted=("%d of %d rows differ: " % (len(wrong), n) + "; ".join(wrong[:3])) if wrong else "%d rows: 00 01 FF..FF 00 || DER(DigestInfo) byte for byte (6 OIDs, with and without NULL, minimum length and around it)" % n,
+             expected="EMSA-PKCS1-v1_5 of RFC 8017 9.2: at least 8 bytes of FF; DigestInfo = SEQUENCE { SEQUENCE { OID [, NULL] }, OCTET STRING digest } in DER")
+    check.count("emsa_rows", total + n)
